@@ -59,6 +59,19 @@ func classOf(p string) string {
 	return "regular"
 }
 
+// representative is the canonical property name of a sanitiser class.
+func representative(class, p string) string {
+	switch class {
+	case "regular":
+		return "color"
+	case "enum(display)":
+		return "display"
+	case "invalid-name":
+		return p
+	}
+	return class
+}
+
 func namesFor(p string) []string { return []string{strings.ToLower(p), innocuousName} }
 
 // ---- the code under test, wrapped so that a panic is an observation
@@ -164,11 +177,20 @@ func rank(v string) int {
 }
 
 func less(a, b witness) bool {
-	if len(a.p)+len(a.v) != len(b.p)+len(b.v) {
-		return len(a.p)+len(a.v) < len(b.p)+len(b.v)
+	sz := func(w witness) int {
+		if w.class == "invalid-name" {
+			return len(w.p) + len(w.v)
+		}
+		return len(w.v) // the name is the class representative
 	}
-	if ra, rb := rank(a.v)+strings.Count(a.v, "\n"), rank(b.v)+strings.Count(b.v, "\n"); ra != rb {
-		return ra < rb
+	if sz(a) != sz(b) {
+		return sz(a) < sz(b)
+	}
+	ugly := func(w witness) int {
+		return rank(w.v) + strings.Count(w.v, "\n") + rank(w.p) + strings.Count(w.p, "\n")
+	}
+	if ua, ub := ugly(a), ugly(b); ua != ub {
+		return ua < ub
 	}
 	if a.v != b.v {
 		return a.v < b.v
@@ -232,9 +254,9 @@ func recordSanitiser(b *bag, p, v string, cl Clause) {
 			continue
 		}
 		mp := p
-		if lp := strings.ToLower(p); class != "invalid-name" && lp != p {
-			if c2, _ := verdictSanitiser(lp, v); c2&bit != 0 {
-				mp = lp // canonical spelling of the class
+		if rep := representative(class, p); rep != p {
+			if c2, _ := verdictSanitiser(rep, v); c2&bit != 0 {
+				mp = rep // canonical property of the class
 			}
 		}
 		if class == "invalid-name" {
@@ -446,20 +468,22 @@ func sweep(c *core.Ctx, b *bag, props []string, streams []stream, hashed bool) {
 
 func inProc(c *core.Ctx, b *bag) {
 	main3 := []string{"background-image", "font-family", "color"}
-	L := c.Pick(4, 5)
+	L := c.Pick(4, 6)
 	// full enumerations against the three sanitiser classes that look at the value's structure
-	sweep(c, b, main3, []stream{exhaustive(L), shapes1(3), shapes2(2), structured(c.Pick(2, 3))}, false)
+	sweep(c, b, main3[:2], []stream{exhaustive(L)}, false)
+	sweep(c, b, main3[2:], []stream{exhaustive(c.Pick(4, 5))}, false)
+	sweep(c, b, main3, []stream{shapes1(c.Pick(3, 4)), shapes2(2), structured(c.Pick(2, 3))}, false)
 	sweep(c, b, main3, []stream{random(c, c.Pick(200000, 4000000))}, true)
 	// enum class and invalid names: exhaustive values (shorter for the names)
-	sweep(c, b, []string{"display"}, []stream{exhaustive(L), structured(2)}, false)
+	sweep(c, b, []string{"display"}, []stream{exhaustive(c.Pick(4, 5)), structured(2)}, false)
 	// every listed regular property, unlisted names and spellings: reduced enumeration
 	rest := append(append([]string{}, regularProps...), unlistedProps...)
 	sweep(c, b, rest, []stream{exhaustive(3), structured(1)}, false)
 	sweep(c, b, invalidNames, []stream{exhaustive(2), structured(1)}, false)
 	c.Set("property_names", len(main3)+1+len(rest)+len(invalidNames))
 	c.Set("exhaustive", false)
-	c.Set("exhaustive_subspace", fmt.Sprintf("every value of length <=%d over the %d-symbol alphabet %q, and the shapes url(X) url(\"X\") url('X') \"X\" \"\"X\"\" 'X' url()Xurl() url(\"\")Xurl(\"\") aXa with every X of length <=3, and `\"X\", Y` / `X, Y` with every X,Y of length <=2, were enumerated completely for background-image, font-family and color through safehtml.SanitizeCSS and templ.SanitizeCSS; length <=%d for display; <=3 for the other listed/unlisted names; <=2 for invalid names",
-		L, len(alphabet), strings.Join(alphabet, ""), L))
+	c.Set("exhaustive_subspace", fmt.Sprintf("every value of length <=%d over the %d-symbol alphabet %q, and the shapes url(X) url(\"X\") url('X') \"X\" \"\"X\"\" 'X' url()Xurl() url(\"\")Xurl(\"\") aXa with every X of length <=%d, and `\"X\", Y` / `X, Y` with every X,Y of length <=2, were enumerated completely for background-image, font-family and (plain values to length <=%d) color through safehtml.SanitizeCSS and templ.SanitizeCSS; length <=%d for display; <=3 for the other listed/unlisted names; <=2 for invalid names",
+		L, len(alphabet), strings.Join(alphabet, ""), c.Pick(3, 4), c.Pick(4, 5), c.Pick(4, 5)))
 }
 
 // report turns the bag into violations, deterministically. One violation per
@@ -508,7 +532,11 @@ func report(c *core.Ctx, b *bag) {
 		}
 		what += " Clauses of the statement this class breaks, with the smallest witness for each:"
 		for _, x := range g.per {
-			what += fmt.Sprintf(" %s %q;", x.clause, x.v)
+			if x.class == "invalid-name" {
+				what += fmt.Sprintf(" %s name=%q value=%q;", x.clause, x.p, x.v)
+			} else {
+				what += fmt.Sprintf(" %s %q;", x.clause, x.v)
+			}
 		}
 		kind := "sanitiser"
 		if w.group != "sanitiser" {
